@@ -20,7 +20,9 @@ RULE = ("series pairs (and self comparison) x gamma, tau, delta, delta_factor x 
         "only_triu: every in-band cell == documented recurrence, out-of-band / below-diagonal cells excluded (-inf); C "
         "full and compact == Python; LocalConcurrences.kbest_matches histories (k, minlen, restart True/False): paths "
         "contiguous, monotone, through positive cells of the matrix before the call, no cell shared with an earlier "
-        "match, restart resets")
+        "match, restart resets; no in-band cell is masked after align(); the first match of a fresh search (minlen "
+        "<= 1) ends in a cell holding the maximum; only_triu also on unequal lengths; objects built through "
+        "local_concurrences() in half of the cases")
 GUARD = "psi None (as LocalConcurrences uses it)"
 
 KINDS = ["py.aff", "py.aff", "c.aff", "c.aff_compact", "lc", "lc.c"]
